@@ -4,7 +4,7 @@
    BLAKE3 is the Section variable H; collisions among the contents that actually occur in the
    history are excluded by the explicit hypothesis NoCollide (no global injectivity is assumed). *)
 From Cas Require Import History.
-From CasProofs Require Import StoreFS StoreInv StoreWrite StoreRead StoreHist.
+From CasProofs Require Import StoreFS StoreInv StoreWrite StoreRead StoreHist PreCreateHist.
 
 (* from any state related to the abstract map sg by the invariant Live0: every finite sequence
    of API calls (streamed puts with any chunking, overwrites, same-content puts, aborted
@@ -27,13 +27,15 @@ Proof. exact StoreHist.C01_refines_ordered_map. Qed.
 Print Assumptions C01_refines_ordered_map.
 
 (* the invariant is reachable: opening an empty directory establishes it, so the statement
-   above covers every history on a fresh database, for every key type, segment size and sync mode *)
+   above covers every history on a fresh database, for every key type, segment size, sync mode
+   and either choice of pre_create_cas_dirs (with c_pre cfg = true the first open creates the
+   65,536 fan-out directories first: PreCreate.v, PreCreateHist.v) *)
 Theorem C01_from_fresh_directory :
   forall H : bytes -> bytes,
     (forall b, length (H b) = 32%nat) -> (forall b, Forall (fun x => x < 256) (H b)) ->
   forall cfg : config, 0 < c_n cfg ->
   forall ops : list op,
-    c_pre cfg = false -> Forall (api_op cfg) ops -> NoCollide H (hist_contents ops) ->
+    Forall (api_op cfg) ops -> NoCollide H (hist_contents ops) ->
     exists (os : option ostats) (hd' : handle) (w' : world),
       run_ops H None (OpOpen cfg false :: ops) (init_world empty_fs None)
       = (OutOpened os :: spec_outs H cfg [] ops, Some hd', w')
@@ -41,7 +43,7 @@ Theorem C01_from_fresh_directory :
       /\ Live0 H cfg (h_mem hd') (wfs w') (fold_left (spec_step (key_cmp (c_kt cfg))) ops [])
       /\ Clean H (wfs w') (fold_left (spec_step (key_cmp (c_kt cfg))) ops [])
       /\ CasNamed H (wfs w').
-Proof. exact StoreHist.C01_from_fresh. Qed.
+Proof. exact PreCreateHist.C01_from_fresh_gen. Qed.
 Print Assumptions C01_from_fresh_directory.
 
 (* reads, one by one *)
